@@ -92,7 +92,9 @@ func (ts *TriangleSource) Sample() error {
 
 // StartRun launches the repeated loop that generates Triangle data.
 func (ts *TriangleSource) StartRun() error {
+	verifSync("spawn", "prod", nil)
 	go func() {
+		verifSync("start", "prod", nil)
 		for {
 			nextread := ts.lastread.Add(ts.timeperbuf)
 			waittime := time.Until(nextread)
@@ -100,6 +102,8 @@ func (ts *TriangleSource) StartRun() error {
 			select {
 			case <-ts.abortSelf:
 				verifPoint("prod.abortSeen")
+				verifSync("recvc", "abort", ts.abortSelf)
+				verifSync("close", "nb", ts.nextBlock)
 				close(ts.nextBlock)
 				return
 			case <-time.After(waittime):
@@ -116,8 +120,11 @@ func (ts *TriangleSource) StartRun() error {
 			// Backtrack to find the time associated with the first sample.
 			firstTime := now.Add(-ts.timeperbuf) // use now here; should correspond to the time the data was read
 			block := new(dataBlock)
+			verifAcc("blk", block, true)
+			verifAcc("nfn", &ts.nextFrameNum, true)
 			block.segments = make([]DataSegment, ts.nchan)
 			for channelIndex := 0; channelIndex < ts.nchan; channelIndex++ {
+				verifAcc("seg", &block.segments[channelIndex], true)
 				datacopy := make([]RawType, ts.cycleLen)
 				copy(datacopy, ts.onecycle)
 				seg := DataSegment{
@@ -131,6 +138,7 @@ func (ts *TriangleSource) StartRun() error {
 			}
 			ts.nextFrameNum += FrameIndex(ts.cycleLen)
 			verifPoint("prod.send")
+			verifSync("send", "nb", ts.nextBlock)
 			ts.nextBlock <- block
 		}
 	}()
@@ -229,10 +237,13 @@ func (sps *SimPulseSource) StartRun() error {
 	for i := 0; i < sps.nchan; i++ {
 		sps.subframeOffsets[i] = i
 	}
+	verifSync("spawn", "prod", nil)
 	go func() {
+		verifSync("start", "prod", nil)
 		log.Printf("starting SimPulseSource with cycleLen %v, nchan %v, timeperbuf %v\n",
 			sps.cycleLen, sps.nchan, sps.timeperbuf)
 		defer close(sps.nextBlock)
+		defer verifSync("close", "nb", sps.nextBlock)
 		blocksSentSinceLastHeartbeat := 0
 		ticker := time.NewTicker(sps.timeperbuf)
 		heartbeatTicker := time.NewTicker(1 * time.Second)
@@ -240,6 +251,7 @@ func (sps *SimPulseSource) StartRun() error {
 			select {
 			case <-sps.abortSelf:
 				verifPoint("prod.abortSeen")
+				verifSync("recvc", "abort", sps.abortSelf)
 				return
 			case <-ticker.C:
 				verifPoint("prod.tick")
@@ -247,8 +259,11 @@ func (sps *SimPulseSource) StartRun() error {
 				// Backtrack to find the time associated with the first sample.
 				firstTime := time.Now().Add(-sps.timeperbuf) // use now for accurate sample time
 				block := new(dataBlock)
+				verifAcc("blk", block, true)
+				verifAcc("nfn", &sps.nextFrameNum, true)
 				block.segments = make([]DataSegment, sps.nchan)
 				for channelIndex := 0; channelIndex < sps.nchan; channelIndex++ {
+					verifAcc("seg", &block.segments[channelIndex], true)
 					datacopy := make([]RawType, sps.cycleLen)
 					copy(datacopy, sps.onecycle)
 					for i := 0; i < sps.cycleLen; i++ {
@@ -265,6 +280,7 @@ func (sps *SimPulseSource) StartRun() error {
 				}
 				sps.nextFrameNum += FrameIndex(sps.cycleLen)
 				verifPoint("prod.send")
+				verifSync("send", "nb", sps.nextBlock)
 				sps.nextBlock <- block
 				sps.lastread = time.Now()
 				blocksSentSinceLastHeartbeat++
